@@ -149,7 +149,8 @@ def inject(rng, case):
         if t == 'IN':
             for v in ('SELL', 'MOVE', 'FEE', 'LOST', 'FOO'):
                 opts.append(("type-not-allowed-in-IN", ri, m['transaction_type'], v))
-            opts.append(("non-positive-crypto-in", ri, m['crypto_in'], rng.choice([-1.0, 0.0])))
+            if case["recs"]['IN'][k]['transaction_type'].upper() != 'STAKING':      # the constructor accepts non-positive staking amounts
+                opts.append(("non-positive-crypto-in", ri, m['crypto_in'], rng.choice([-1.0, 0.0])))
             opts.append(("non-positive-spot-price", ri, m['spot_price'], rng.choice([-2.0, 0.0])))
             opts.append(("non-numeric", ri, m[rng.choice(['crypto_in', 'spot_price'])], 'abc'))
             if 'crypto_fee' in m and 'fiat_fee' in m:
